@@ -86,7 +86,8 @@ def eqB (tf : TypeFacts) : Bool :=
 
 /-- serialisation: every cache field is skipped, every parameter field is serialised, nothing derived is -/
 def serdeB (tf : TypeFacts) : Bool :=
-  !tf.serdeDerive ||
+  !tf.serdeDerive || tf.serdeProxy ||   -- proxies (`from`/`into`) serialise a dedicated parameter type
+
   (tf.caches.all (fun c => tf.skipped.contains c) &&
    tf.params.all (fun p => tf.serialized.contains p || (tf.derived.any (fun d => d.1 == p))) &&
    tf.derived.all (fun d => !tf.serialized.contains d.1))
